@@ -3,6 +3,7 @@ package world
 import (
 	"context"
 	"sort"
+	"strings"
 	"sync"
 	"time"
 
@@ -19,6 +20,7 @@ type Storer struct {
 
 	OneTime         bool           // hand out the TOTP replay-protecting user type
 	ProfileKeys     []string       // the application's declared profile fields
+	FoldPIDs        bool           // Load finds an account under any spelling that lower-cases to its identifier
 	PersistAll      bool           // PutArbitrary stores everything it is handed
 	TimeLoc         *time.Location // Location of the timestamps handed out by Load* (nil: as stored)
 	OAuth2Confirmed bool           // new OAuth2 users are created confirmed (as authboss-sample does)
@@ -250,6 +252,15 @@ func (s *Storer) Load(ctx context.Context, key string) (authboss.User, error) {
 	s.mu.Lock()
 	defer s.mu.Unlock()
 	u, ok := s.users[key]
+	if !ok && s.FoldPIDs {
+		// a case-insensitive collation on the identifier column: the lookup is not byte-exact
+		for pid, c := range s.users {
+			if strings.ToLower(pid) == strings.ToLower(key) {
+				u, ok = c, true
+				break
+			}
+		}
+	}
 	if !ok {
 		s.noteResult("notfound")
 		return nil, authboss.ErrUserNotFound
